@@ -79,6 +79,11 @@ def templates(tier="quick"):
     st = [Stmt("a", ex=["s"], prints=P("line", "a")), Stmt("b", ex=["t"], rsp=("blocker/b.rsp", "x"), prints=P("line", "b")),
           Stmt("c", ex=["t"], prints=P("multi", "c")), Stmt("top", ex=["a", "b", "c"], prints=P("line", "top"))]
     add("start_fails", Variant("v0", st), js=(1, 3), files={"blocker": "a file, not a directory\n"})
+    # ... and while a console command owns the terminal (what was held back is shown when that command has ended)
+    st = [Stmt("a", ex=["s"], prints=P("line", "a")), Stmt("b", ex=["a"], rsp=("blocker/b.rsp", "x"), prints=P("line", "b")),
+          Stmt("c1", ex=["t"], pool="console", prints=P("multi", "c1")), Stmt("n", ex=["t"], prints=P("line", "n")),
+          Stmt("top", ex=["b", "c1", "n"], prints=P("line", "top"))]
+    add("start_fails_console", Variant("v0", st), js=(3,), files={"blocker": "a file, not a directory\n"})
     # statements with deps whose failing tool leaves an unparsable depfile behind (exit code 3, output)
     st = [Stmt("o1", ex=["s"], hidden=["h"], deps="gcc", prints=P("line", "o1")), Stmt("o2", ex=["t"], hidden=["h"], depfile=True, prints=P("multi", "o2")),
           Stmt("link", ex=["o1", "o2"], prints=P("line", "link"))]
